@@ -36,4 +36,39 @@ def handlerFor (steps : List Nat) (hs : List Decl) (s : Nat) : Option Nat :=
     | some w => if steps.contains s && !(names hs).contains s then some w.name else none
     | none => none
 
+/-! ### which layouts are rejected, and why
+
+`validate_catch_error_handlers` does not stop at the first problem: it returns one message per
+problem, in a fixed order -- the wildcard count first, then one verdict per scoped claim in
+declaration order (unknown step / covers a handler step / step claimed twice); only a claim with
+no problem is entered into `claim_owner`, so "claimed twice" is judged against the *accepted*
+claims before it. -/
+
+inductive LayoutErr where
+  /-- more than one wildcard handler (`n` of them) -/
+  | wildcards (n : Nat)
+  /-- handler `h` lists `t`, which is no step -/
+  | unknown (h t : Nat)
+  /-- handler `h` lists `t`, which is a handler step (another scoped handler, the wildcard handler, `h` itself) -/
+  | coversHandler (h t : Nat)
+  /-- step `t` is already claimed by `owner` when handler `h` lists it -/
+  | claimedTwice (t owner h : Nat)
+deriving Repr, DecidableEq
+
+/-- the claim loop: `owners` is `claim_owner` so far (latest first) -/
+def claimErrs (steps hnames : List Nat) : List (Nat × Nat) → List (Nat × Nat) → List LayoutErr
+  | _, [] => []
+  | owners, (t, h) :: cs =>
+    if !steps.contains t then .unknown h t :: claimErrs steps hnames owners cs
+    else if hnames.contains t then .coversHandler h t :: claimErrs steps hnames owners cs
+    else
+      match owners.find? (fun o => o.1 == t) with
+      | some o => .claimedTwice t o.2 h :: claimErrs steps hnames owners cs
+      | none => claimErrs steps hnames ((t, h) :: owners) cs
+
+/-- the messages of `validate_catch_error_handlers(handlers, step_names)`, classified -/
+def errors (steps : List Nat) (hs : List Decl) : List LayoutErr :=
+  (if 1 < (wildcards hs).length then [.wildcards (wildcards hs).length] else []) ++
+    claimErrs steps (names hs) [] (claims hs)
+
 end Handlers
